@@ -730,7 +730,7 @@ def _show(t):
             if e[0] == "assign":
                 effs.append((e[1] + "=" if e[1] else "=") + _show(e[2]) + gs)
             elif e[0] == "assignop":
-                effs.append(e[2] + e[1] + "=" + _show(e[3]) + gs)
+                effs.append(e[2] + e[1] + _show(e[3]) + gs)
             elif e[0] == "mutcall":
                 effs.append((e[2] + "." if e[2] else ".") + e[1] + "(" + ",".join(_show(a) for a in e[3]) + ")" + gs)
             elif e[0] == "mutarg":
